@@ -17,7 +17,7 @@ thread_local! {
     pub static CLONES: RefCell<Vec<(usize, u64, u64)>> = RefCell::new(Vec::new());
 }
 
-pub const NTYPES: usize = 9;
+pub const NTYPES: usize = 10;
 
 fn record(t: usize, serial: u64) -> bool {
     // returns true when this is the first drop of that instance
@@ -57,14 +57,23 @@ pub fn reset_ledger() {
     CLONES.with(|c| c.borrow_mut().clear());
 }
 
+/// the k-th clone of the value with serial `from` gets serial `from + 1_000_000 * k`, so that the
+/// order in which hecs clones the components of a bundle is not observable
 fn clone_serial(t: usize, from: u64) -> u64 {
-    let s = NEXT_CLONE_SERIAL.with(|c| {
-        let v = c.get();
-        c.set(v + 1);
-        v
+    let k = CLONES.with(|c| {
+        let mut c = c.borrow_mut();
+        match c.iter_mut().find(|e| e.0 == t && e.1 == from) {
+            Some(e) => {
+                e.2 += 1;
+                e.2
+            }
+            None => {
+                c.push((t, from, 1));
+                1
+            }
+        }
     });
-    CLONES.with(|c| c.borrow_mut().push((t, from, s)));
-    s
+    from + 1_000_000 * k
 }
 
 pub trait Comp: hecs::Component + Sized {
@@ -304,6 +313,33 @@ impl Clone for ZA {
     }
 }
 
+// ---- 9: ZB, zero-sized, align 8
+#[repr(align(8))]
+pub struct ZB;
+impl Comp for ZB {
+    const IDX: usize = 9;
+    fn new(_: u64) -> Self {
+        ZB
+    }
+    fn serial(&self) -> u64 {
+        if (self as *const ZB as usize) % 8 != 0 {
+            CORRUPT
+        } else {
+            0
+        }
+    }
+}
+impl Drop for ZB {
+    fn drop(&mut self) {
+        record_zst(9);
+    }
+}
+impl Clone for ZB {
+    fn clone(&self) -> Self {
+        ZB
+    }
+}
+
 /// `(size, align)` of every universe type, as hecs sees it
 pub fn layouts() -> Vec<(usize, usize)> {
     use std::alloc::Layout;
@@ -317,6 +353,7 @@ pub fn layouts() -> Vec<(usize, usize)> {
         (Layout::new::<L>().size(), Layout::new::<L>().align()),
         (Layout::new::<Z>().size(), Layout::new::<Z>().align()),
         (Layout::new::<ZA>().size(), Layout::new::<ZA>().align()),
+        (Layout::new::<ZB>().size(), Layout::new::<ZB>().align()),
     ]
 }
 
@@ -334,6 +371,7 @@ macro_rules! with_type {
             6 => { type $T = $crate::comps::L; $body }
             7 => { type $T = $crate::comps::Z; $body }
             8 => { type $T = $crate::comps::ZA; $body }
+            9 => { type $T = $crate::comps::ZB; $body }
             _ => panic!("harness: bad type index"),
         }
     };
@@ -405,11 +443,13 @@ macro_rules! with_bundle {
             23 => { type $T = (D, C, B, A); $body }
             24 => { type $T = (S, Z, B, ZA, L); $body }
             25 => { type $T = (C, E); $body }
+            26 => { type $T = (ZB,); $body }
+            27 => { type $T = (ZB, B); $body }
             _ => panic!("harness: bad bundle menu index"),
         }
     }};
 }
-pub const NBUNDLES: usize = 26;
+pub const NBUNDLES: usize = 28;
 
 /// smaller menu for the removed side of `exchange` (keeps monomorphisation count down)
 #[macro_export]
